@@ -169,6 +169,11 @@ def render(toks, rng=None):
 # ---------------------------------------------------------------------------
 # generation
 
+# string bodies as written between the delimiting quotes (escapes stay raw in the tree): plain ones, and ones that begin or end with an
+# escaped quote or a backslash pair, where stripping instead of slicing the delimiters would eat into the body
+STRINGS = ["ecu", "big", "a b", "x/y", "", "V", "deg C", "it's", '5\\"', '\\"x', '\\"', 'say \\"hi\\"', "a\\\\", "\\n", "// no comment", "/* nor this */"]
+
+
 def gen_value(rng, depth=2):
     r = rng.random()
     if r < 0.3:
@@ -176,7 +181,7 @@ def gen_value(rng, depth=2):
     if r < 0.45:
         return ("float", rng.choice(FLOAT_LEX))
     if r < 0.65:
-        return ("str", rng.choice(["ecu", "big", "a b", "x/y", "", "V", "deg C", "it's"]))
+        return ("str", rng.choice(STRINGS))
     if r < 0.8:
         return ("ident", rng.choice(["ecu", "little", "Sv0", "x1", "_p"]))
     if depth > 0:
@@ -221,7 +226,7 @@ def gen_items(rng, prefix="", allow_services=True):
             for j, fid in enumerate(ids):
                 params = []
                 if rng.random() < 0.3:
-                    params.append(("unit", [rng.choice([("str", "V"), ("str", "m/s"), ("ident", "rpm")])]))
+                    params.append(("unit", [rng.choice([("str", "V"), ("str", "m/s"), ("ident", "rpm"), ("str", rng.choice(STRINGS))])]))
                 if rng.random() < 0.3:
                     params.append(("range", [("float", rng.choice(FLOAT_LEX)), ("float", rng.choice(FLOAT_LEX))]))
                 if rng.random() < 0.1:
